@@ -44,6 +44,7 @@ type fakeWS struct {
 	inWrite   int
 	maxInWrite int
 	dlErr     bool
+	slowClose time.Duration // Close fails the pending reads at once but returns only after this long
 	echoClose bool // the peer answers a close frame with a close frame
 	log       func(string)
 }
@@ -135,6 +136,9 @@ func (f *fakeWS) Close() error {
 				}
 			}
 		}()
+	}
+	if f.slowClose > 0 {
+		time.Sleep(f.slowClose)
 	}
 	return nil
 }
